@@ -96,6 +96,10 @@ def _items(v):
     return [dict(k="s", v=[], s=x) if isinstance(x, str) else dict(k="c", v=_ints(x), s="") for x in v]
 
 
+def _bad(*_):
+    raise TypeError
+
+
 def _ro(fn, conv=_toks):
     r, v = _oc(fn, conv)
     return dict(r=r, o=v if r == "ok" else [])
@@ -138,7 +142,7 @@ def obs_get(toks):
     rec["ctx"] = _ro(lambda: TU.get_context_tokens(list(t)))
     rec["p0"] = _ro(lambda: TU.get_path_tokens(list(t)))
     rec["p1"] = _ro(lambda: TU.get_path_tokens(list(t), trim_end=True))
-    r, v = _oc(lambda: TU.get_token_regions(list(t)), lambda x: (_toks(x[0]), _toks(x[1])) if isinstance(x, tuple) and len(x) == 2 else 1 / 0)
+    r, v = _oc(lambda: TU.get_token_regions(list(t)), lambda x: (_toks(x[0]), _toks(x[1])) if isinstance(x, tuple) and len(x) == 2 else _bad())
     rec["rg"] = dict(r=r, a=v[0] if r == "ok" else [], n=v[1] if r == "ok" else [])
     return rec
 
@@ -155,7 +159,7 @@ def obs_eq(a, b, same="-"):
 def obs_dir(pts, which):
     TU = _tu()
     arr = np.array(pts)
-    r, v = _oc((lambda: TU.get_cardinal_direction(arr)) if which == "card" else (lambda: TU.get_relative_direction(arr)), lambda x: x if isinstance(x, str) else 1 / 0)
+    r, v = _oc((lambda: TU.get_cardinal_direction(arr)) if which == "card" else (lambda: TU.get_relative_direction(arr)), lambda x: x if isinstance(x, str) else _bad())
     return dict(t="dir", pts=[list(map(int, p)) for p in pts], which=which, r=r, v=v if r == "ok" else "")
 
 
@@ -205,13 +209,13 @@ def obs_c2t(v):
 def obs_bool(s, shape, sym):
     from maze_dataset.utils import bool_array_from_string
 
-    r, v = _oc(lambda: bool_array_from_string(s, list(shape), sym), lambda x: (list(map(int, x.shape)), [_bool(y) for y in x.ravel()]) if isinstance(x, np.ndarray) else 1 / 0)
+    r, v = _oc(lambda: bool_array_from_string(s, list(shape), sym), lambda x: (list(map(int, x.shape)), [_bool(y) for y in x.ravel()]) if isinstance(x, np.ndarray) else _bad())
     return dict(t="bool", cs=list(s), shape=list(shape), sym=sym, r=r, flat=v[1] if r == "ok" else [], oshape=v[0] if r == "ok" else [])
 
 
 def obs_pad(toks):
     TU = _tu()
-    r, v = _oc(lambda: TU.remove_padding_from_token_str(" ".join(toks)), lambda x: x if isinstance(x, str) else 1 / 0)
+    r, v = _oc(lambda: TU.remove_padding_from_token_str(" ".join(toks)), lambda x: x if isinstance(x, str) else _bad())
     return dict(t="pad", toks=list(toks), r=r, s=v if r == "ok" else "")
 
 
@@ -252,10 +256,10 @@ _TOK_CACHE = []
 
 
 def _maze_of(job):
-    """a solved maze, deterministic in the job: (n, graph int | None, generator, seed)"""
+    """a solved maze, deterministic in the job: (n, graph int | None, generator, seed, one-cell path at (0,0)?)"""
     from maze_dataset.generation import LatticeMazeGenerators as G
 
-    n, g, gen, seed = job
+    n, g, gen, seed, point = job
     rng = np.random.default_rng(seed)
     np.random.seed(int(rng.integers(0, 2**31)))
     random.seed(int(rng.integers(0, 2**31)))
@@ -265,20 +269,25 @@ def _maze_of(job):
         conn = (G.gen_dfs if gen == "dfs" else G.gen_dfs_percolation)(np.array([n, n]), **({} if gen == "dfs" else dict(p=0.3))).connection_list
     comp = sorted(mz.bfs(conn, (int(rng.integers(0, n)), int(rng.integers(0, n)))).items(), key=lambda kv: (kv[1], kv[0]))
     s, e = comp[0][0], comp[int(rng.integers(0, len(comp)))][0]
-    par = mz.all_shortest(conn, s, e)
-    return mz.SolvedMaze(connection_list=conn, solution=np.array(par[0]))
+    if point:
+        s = e = (0, 0)
+    d = mz.bfs(conn, s)
+    path = [e]
+    while path[-1] != s:  # walk back along decreasing distance (harness side: input construction only)
+        path.append(min(y for y in mz.nbrs(conn, path[-1]) if d.get(y) == d[path[-1]] - 1))
+    return mz.SolvedMaze(connection_list=conn, solution=np.array(path[::-1]))
 
 
 def obs_maze(job):
     if not _TOK_CACHE:
         _TOK_CACHE.extend(_tokenizers())
-    m = _maze_of(job[:4])
+    m = _maze_of(job[:5])
     out = []
     prev = None
     for name, tok, ck, bind in _TOK_CACHE:
         r, toks = _oc(lambda: m.as_tokens(tok), _toks)
-        if r != "ok":
-            out.append(dict(t="get", toks=[], tokenizer=name, as_tokens=r, adj=dict(r=r, o=[]), org=dict(r=r, o=[]), tgt=dict(r=r, o=[]), ctx=dict(r=r, o=[]), p0=dict(r=r, o=[]), p1=dict(r=r, o=[]), rg=dict(r=r, a=[], n=[])))
+        if r != "ok":  # the tokenizer itself is not under test here (C07 and the modular-tokenizer checks judge it)
+            out.append(dict(t="_skip", tokenizer=name, as_tokens=r))
             continue
         rec = obs_get(toks)
         rec.update(tokenizer=name, ck=ck, bind=bind, maze=mz.proj(m))
@@ -291,8 +300,8 @@ def obs_maze(job):
             out.append(e)
         if name == "legacy:AOTP_UT_uniform":
             prev = toks
-    if job[4] is not None and prev is not None:  # a DIFFERENT maze of the same size: whatever the definition says (false positives included)
-        m2 = _maze_of(job[4])
+    if job[5] is not None and prev is not None:  # a DIFFERENT maze of the same size: whatever the definition says (false positives included)
+        m2 = _maze_of(job[5])
         r3, toks3 = _oc(lambda: m2.as_tokens(_TOK_CACHE[1][1]), _toks)
         if r3 == "ok":
             out.append(obs_eq(prev, toks3, same="y" if mz.proj(m2) == mz.proj(m) else "n"))
@@ -405,8 +414,8 @@ def _jobs(seed, thorough):
     lex += [s for s, _ in rnd]
     J += _chunks("lex", lex, 1500)
     J += _chunks("s2l", [p for _, p in rnd[:: 2 if thorough else 4]], 300)
-    # --- tokens_between and the getters: every token sequence up to 6 over {S, E, P, Q, x} in two themes
-    ltb = 6
+    # --- tokens_between and the getters: every token sequence up to 5 (thorough 6) over {S, E, P, Q, x} in two themes
+    ltb = 6 if thorough else 5
     seqs = [(th, q, len(q) <= 4) for n in range(0, ltb + 1) for q in itertools.product("SEPQx", repeat=n) for th in ("A", "O")]
     J += _chunks("seq", seqs, 800)
     allt = [AS, AE, OS, OE, TS, TE, PS, PE, "<-->", ";", "(0,0)", "(1,2)", "(", ")", "1", ","]
@@ -451,12 +460,14 @@ def _jobs(seed, thorough):
     J += _chunks("pad", [list(q) for n in range(0, 5) for q in itertools.product(["a", PAD, "(0,1)"], repeat=n)], 200)
     J += _chunks("lat", range(1, 7), 1)
     # --- real tokenized mazes (legacy + modular tokenizers): every 2x2 graph, sampled 3x3 trees, generator mazes up to 9x9
-    mzj = [(2, g, None, [seed, 34, g], None) for g in range(16)]
+    mzj = [(2, g, None, [seed, 34, g], False, None) for g in range(16)]
     for k in range(300 if thorough else 70):
         n = int(rng.integers(3, 10))
-        mzj.append((n, None, ["dfs", "perc"][k % 2], [seed, 35, k], (n, None, ["dfs", "perc"][k % 2], [seed, 36, k])))
-    for k in range(60 if thorough else 16):  # small percolation mazes: many pairs of different mazes with equal degree vectors
-        mzj.append((2, int(rng.integers(0, 16)), None, [seed, 37, k], (2, int(rng.integers(0, 16)), None, [seed, 38, k])))
+        mzj.append((n, None, ["dfs", "perc"][k % 2], [seed, 35, k], False, (n, None, ["dfs", "perc"][k % 2], [seed, 36, k], False)))
+    # pairs of DIFFERENT 2x2 mazes with a one-cell path at (0,0): every pair with equal degree vectors is a false positive
+    # of equal_except_adj_list_sequence (graph 3 = the two vertical connections, 12 = the two horizontal ones)
+    for k, (g1, g2) in enumerate([(3, 12), (12, 3), (7, 11), (5, 10)] + [(int(rng.integers(0, 16)), int(rng.integers(0, 16))) for _ in range(60 if thorough else 12)]):
+        mzj.append((2, g1, None, [seed, 37, k], True, (2, g2, None, [seed, 38, k], True)))
     J += _chunks("maze", mzj, 4)
     return J, dict(lexer_strings_exhaustive=n_lex_exh, lexer_strings_random=len(rnd), lexer_full_length=full, token_sequences_exhaustive=len(seqs), token_sequence_length=ltb,
                    token_sequences_random=len(tbr), equal_except_pairs=len(es) ** 2, direction_cases=len(dirs), adjacency_graphs=len(adj), coords_to_strings_cases=len(c2s),
@@ -641,7 +652,7 @@ def _design(thorough):
 
 def _collect_design(chk, futs, thorough):
     r = futs["main"].result()
-    if r.distinct < 300000:
+    if r.distinct < 250000:
         raise lib.MachineryError(f"TokenUtils design model explored only {r.distinct} states (vacuous?)")
     chk.add_model("TokenUtils/" + ("thorough" if thorough else "small"), r,
                   "coordinate lexer machine = definition of a UT coordinate string (every string up to FullLex characters, viable prefixes up to MaxLex, both allow_whitespace); "
@@ -668,9 +679,17 @@ def run(chk, thorough):
         outs = lib.pmap(_run_chunk, [jobs[i] for i in order], chunksize=1)
         by_kind = {}
         recs = []
+        skipped = {}
         for i, o in sorted(zip(order, outs)):
-            by_kind[jobs[i][0]] = by_kind.get(jobs[i][0], 0) + len(o)
-            recs += o
+            for x in o:
+                if x["t"] == "_skip":
+                    skipped[x["tokenizer"] + " " + x["as_tokens"]] = skipped.get(x["tokenizer"] + " " + x["as_tokens"], 0) + 1
+                else:
+                    by_kind[x["t"]] = by_kind.get(x["t"], 0) + 1
+                    recs.append(x)
+        # interleave the kinds (the oracle shards contiguous slices; lexer records are the expensive ones)
+        perm = np.random.default_rng([chk.seed, 99]).permutation(len(recs))
+        recs = [recs[int(i)] for i in perm]
         t_obs = time.time() - t0
         C = _controls()
         controls = [dict(_cp(v), control=k) for k, v in C.items()]
@@ -680,7 +699,7 @@ def run(chk, thorough):
         res = lib.judge_with_canaries(
             chk, ORACLE, recs, canaries, label="tokutils",
             what="token / coordinate utility functions of token_utils.py + utils.py observed on exhaustive small scopes, seeded random inputs and real tokenized mazes; every clause is Layer M",
-            case_of=lambda x: {k: v for k, v in x.items() if k not in ("maze",)})
+            case_of=lambda x: {k: v for k, v in x.items() if k not in ("maze",)}, shards=lib.NCPU if thorough else max(1, lib.NCPU // 2))
         for x in controls:
             if x["id"] in res.verdicts:
                 raise lib.MachineryError(f"hand-made control {x['control']!r} rejected by {ORACLE}: {res.verdicts[x['id']]} (oracle or control is wrong)")
@@ -689,7 +708,7 @@ def run(chk, thorough):
         tolerated = dict(adjacent_delimiters=0, surplus_parentheses=0, path_to_list_end=0)
 
         def note(r):
-            if isinstance(r, str) and r != "ok" and not r in ("T", "F"):
+            if isinstance(r, str) and r not in ("ok", "T", "F"):
                 raised[r] = raised.get(r, 0) + 1
 
         for x in recs[:n_real]:
@@ -721,11 +740,12 @@ def run(chk, thorough):
                 note(x["r1"]["r"])
             elif t in ("dir", "c2s", "bool", "pad"):
                 note(x["r"])
-            chk.count(["tu", t, jobs and lib.jhash({k: v for k, v in x.items() if k != "id"})], True)
+            chk.evaluations += 1
+            chk.nontrivial.add(("tu", x["id"]))
         fp = [x for x in recs[:n_real] if x["t"] == "eq" and x.get("same") == "n" and x["r0"]["v"]]
         chk.notes["token_utils"] = dict(
             library=str(maze_dataset.__file__), scope=scope, records_by_kind=by_kind, records=n_real, controls_accepted=len(controls), canaries=len(canaries),
-            outcomes_raised=dict(sorted(raised.items())), tolerated_documented_vs_actual=tolerated,
+            outcomes_raised=dict(sorted(raised.items())), as_tokens_raised_skipped=skipped, tolerated_documented_vs_actual=tolerated,
             equal_except_false_positives_on_real_tokenizations_of_different_mazes=len(fp),
             observe_s=round(t_obs, 1), oracle_s=round(res.wall, 1), divergent_records=len(res.verdicts),
         )
